@@ -69,6 +69,9 @@ fn cmd_gen(args: &[String]) -> i32 {
     let mut opts = gen::GenOpts::basic();
     opts.layout_noise = args.iter().any(|a| a == "--noise");
     opts.allow_module = args.iter().any(|a| a == "--module");
+    if args.iter().any(|a| a == "--static") {
+        opts.exec = false;
+    }
     let mut bad = 0;
     let mut tags: std::collections::BTreeMap<&str, u32> = Default::default();
     for i in 0..n {
